@@ -5,19 +5,46 @@ import struct
 from tools.translate import Untranslatable, _tree, find_def
 
 # ------------------------------------------------------------------ G7 constants
-def _struct_formats(node):
+def _module_consts(module):
+    """module-level `NAME = '<str>'` assignments"""
+    out = {}
+    for st in module.body:
+        if (isinstance(st, ast.Assign) and len(st.targets) == 1 and isinstance(st.targets[0], ast.Name)
+                and isinstance(st.value, ast.Constant) and isinstance(st.value.value, str)):
+            out[st.targets[0].id] = st.value.value
+    return out
+
+
+def _struct_formats(node, module=None, depth=2):
+    """formats of the struct.pack/unpack/calcsize calls in `node`; a format may be a literal or a module-level
+    string constant; module-level helper functions (and methods of the same class) that `node` calls are followed"""
+    consts = _module_consts(module) if module is not None else {}
     out = []
     for n in ast.walk(node):
+        if not isinstance(n, ast.Call):
+            continue
         if (
-            isinstance(n, ast.Call)
-            and isinstance(n.func, ast.Attribute)
+            isinstance(n.func, ast.Attribute)
             and isinstance(n.func.value, ast.Name)
             and n.func.value.id == 'struct'
-            and n.func.attr in ('pack', 'unpack')
+            and n.func.attr in ('pack', 'unpack', 'calcsize')
             and n.args
-            and isinstance(n.args[0], ast.Constant)
         ):
-            out.append(n.args[0].value)
+            a = n.args[0]
+            if isinstance(a, ast.Constant):
+                out.append(a.value)
+            elif isinstance(a, ast.Name) and a.id in consts:
+                out.append(consts[a.id])
+            else:
+                raise Untranslatable(f'struct format that is not a literal or a module constant: {ast.unparse(a)}')
+        elif module is not None and depth > 0:
+            name = n.func.id if isinstance(n.func, ast.Name) else (
+                n.func.attr if isinstance(n.func, ast.Attribute) and getattr(n.func.value, 'id', '') in ('self', 'cls')
+                else None)
+            if name:
+                for d in ast.walk(module):
+                    if isinstance(d, ast.FunctionDef) and d.name == name and d is not node:
+                        out.extend(_struct_formats(d, module, depth - 1))
     return out
 
 
@@ -35,7 +62,8 @@ def gen_consts(repo):
     ('pl/message.py', 'receive'),
     ]
     for rel, q in sites:
-        fmts = _struct_formats(find_def(_tree(repo, rel), q))
+        module = _tree(repo, rel)
+        fmts = _struct_formats(find_def(module, q), module)
         if not fmts:
             raise Untranslatable(f'{rel}:{q}: no struct format found')
         for f in fmts:
